@@ -28,7 +28,7 @@ def costOf (l : List (Nat × Nat)) (k : Nat) : Option Nat :=
 @[simp] theorem costOf_nil (k) : costOf [] k = none := rfl
 theorem costOf_cons (p : Nat × Nat) (l k) :
     costOf (p :: l) k = if p.1 = k then some p.2 else costOf l k := by
-  by_cases h : p.1 = k <;> simp [costOf, List.find?_cons, h]
+  by_cases h : p.1 = k <;> simp [costOf, h]
 
 theorem mem_keys {l : List (Nat × Nat)} {k : Nat} : k ∈ keys l ↔ ∃ c, (k, c) ∈ l := by
   simp [keys]
@@ -305,5 +305,32 @@ theorem EvictSound.of_perm {t t' popped : List (Nat × Nat)} (hnd : (keys t).Nod
       rcases List.mem_append.1 (hp.mem_iff.1 h1) with h | h
       · exact h
       · exact absurd (mem_keys_of_mem h) h2
+
+theorem AccessOk.of_perm {t t' : List (Nat × Nat)} (h : t'.Perm t) (k) : AccessOk t t' k :=
+  ⟨fun _ _ => h.mem_iff, (keys_perm h).mem_iff⟩
+
+theorem AccessOk.rfl' {t : List (Nat × Nat)} (k) : AccessOk t t k := AccessOk.of_perm (.refl _) k
+
+theorem AdmitOk.of_push (t : List (Nat × Nat)) (k c) :
+    AdmitOk t ((k, c) :: LruList.without t k) k [] := by
+  refine ⟨?_, by simp, by simp⟩
+  intro p hp
+  have : p ≠ (k, c) := fun e => hp (by simp [e])
+  simp [this, hp]
+
+theorem AdmitOk.of_noop {t : List (Nat × Nat)} {k} (h : k ∈ keys t) : AdmitOk t t k [] :=
+  ⟨by simp, by simp [h], by simp⟩
+
+theorem RemoveOk.of_without (t : List (Nat × Nat)) (k) : RemoveOk t (LruList.without t k) k :=
+  fun _ => mem_without
+
+theorem costOf_push (t : List (Nat × Nat)) (k c) : costOf ((k, c) :: t) k = some c := by
+  simp [costOf_cons]
+
+theorem costOf_append (a b : List (Nat × Nat)) (k) :
+    costOf (a ++ b) k = (costOf a k).or (costOf b k) := by
+  induction a with
+  | nil => simp
+  | cons p a ih => simp only [List.cons_append, costOf_cons]; split <;> simp [ih]
 
 end Fv.Cache.Policy
